@@ -517,12 +517,13 @@ theorem merge_ok_of_check (cv : Conv V) (k : Bool) :
     · split at hck'
       · cases hck'
       · rename_i hcs
+        have hcl0 := hcl
         rw [typeClash, typeClashSecs_false_iff] at hcl
         rw [mergeCheckSecs_ok_iff] at hcs
         rw [mergeCheckProps_ok_iff] at hck'
         unfold merge
         rw [hck]
-        simp only
+        simp only [hcl0, Bool.false_eq_true, if_false]
         have h1 := mergeSecs_ok_of_check cv k ss r d.secs hwfs
           (fun o ho mine hf => ⟨hty'.2 mine (findSec_some hf).1, (hcl o ho).1 mine hf, hcs o ho mine hf⟩)
           (fun o ho hf => (hcl o ho).2 hf)
@@ -682,7 +683,7 @@ theorem mergeCheck_conflict (cv : Conv V) (d s : Sec V) (h : treeConflict d s = 
   | ok => rw [treeConflict_false cv s d hc] at h; cases h
   | raised e => rw [mergeCheck_raised cv true s d e hc]
 
-/-! ## The name clash: `KeyError` from `SmartList.append` -/
+/-! ## The name clash: refused up front by `_merge_name_check` -/
 
 theorem typeClashSecs_congr (l l' os : List (Sec V))
     (h : ∀ o ∈ os, findSec l' o.name o.type = findSec l o.name o.type ∧
@@ -695,86 +696,28 @@ theorem typeClashSecs_congr (l l' os : List (Sec V))
     rw [(h o (List.mem_cons_self ..)).1, (h o (List.mem_cons_self ..)).2,
         ih (fun o' ho' => h o' (List.mem_cons_of_mem _ ho'))]
 
-mutual
-theorem merge_clash_keyError (cv : Conv V) (k : Bool) :
-    ∀ (s : Sec V) (r : Ref) (d : Sec V), wfSec cv s = true → typedSec d = true →
-      mergeCheck cv k d s = .ok → typeClash d s = true → (merge cv k r d s).2 = .raised .keyError
-  | .mk sa sp ss, r, d, hwf, hty, hck, hcl => by
-    rw [wfSec_mk] at hwf
-    obtain ⟨hnd, hh, hwfs⟩ := hwf
-    have hty' := (typedSec_iff d).1 hty
-    have hck' := hck
-    unfold mergeCheck at hck'
-    split at hck'
-    · cases hck'
-    · split at hck'
-      · cases hck'
-      · rename_i hcs
-        rw [typeClash] at hcl
-        rw [mergeCheckSecs_ok_iff] at hcs
-        unfold merge
-        rw [hck]
-        simp only
-        have h1 := mergeSecs_clash_keyError cv k ss r d.secs hwfs
-          (fun o ho mine hf => ⟨hty'.2 mine (findSec_some hf).1, hcs o ho mine hf⟩) hcl
-        split
-        · rename_i secs' e he; rw [he] at h1; simp at h1; simp [h1]
-        · rename_i secs' he; rw [he] at h1; cases h1
-theorem mergeSecs_clash_keyError (cv : Conv V) (k : Bool) :
-    ∀ (os : List (Sec V)) (r : Ref) (dsecs : List (Sec V)), wfSecs cv os = true →
-      (∀ o ∈ os, ∀ mine, findSec dsecs o.name o.type = some mine →
-        typedSec mine = true ∧ mergeCheck cv k mine o = .ok) →
-      typeClashSecs dsecs os = true →
-      (mergeSecs cv k r dsecs os).2 = .raised .keyError
-  | [], r, dsecs, _, _, hc => by simp [typeClashSecs] at hc
-  | o :: os, r, dsecs, hwf, hm, hc => by
-    rw [wfSecs_cons] at hwf
-    obtain ⟨hwo, hno, hwos⟩ := hwf
-    have hne : ∀ o' ∈ os, o.name ≠ o'.name := by
-      intro o' ho' he
-      exact (secNameIn_false_iff _ _).1 hno o' ho' he.symm
-    unfold typeClashSecs at hc
-    unfold mergeSecs
-    split
-    · rename_i mine hf
-      have hmo := hm o (List.mem_cons_self ..) mine hf
-      simp only [hf] at hc
-      by_cases hcm : typeClash mine o = true
-      · have := merge_clash_keyError cv k o (r.child o.name) mine hwo hmo.1 hmo.2 hcm
-        split
-        · rename_i m' e he; rw [he] at this; simp at this; simp [this]
-        · rename_i m' he; rw [he] at this; cases this
-      · have hcm' : typeClash mine o = false := by simpa using hcm
-        have hok := merge_ok_of_check cv k o (r.child o.name) mine hwo hmo.1 hcm' hmo.2
-        rw [hcm', Bool.false_or] at hc
-        split
-        · rename_i m' e he; rw [he] at hok; cases hok
-        · rename_i m' he
-          have hm' : m'.name = o.name := (merge_fst_name he).1.trans (findSec_some hf).2.1
-          apply mergeSecs_clash_keyError cv k os r _ hwos
-          · intro o' ho' mine' hf'
-            rw [findSec_replace_other _ _ _ _ _ _ hm' (hne o' ho')] at hf'
-            exact hm o' (List.mem_cons_of_mem _ ho') mine' hf'
-          · rw [typeClashSecs_congr dsecs _ os
-              (fun o' ho' => ⟨findSec_replace_other _ _ _ _ _ _ hm' (hne o' ho'),
-                              secNameIn_replace_other _ _ _ _ _ hm' (hne o' ho')⟩)]
-            exact hc
-    · rename_i hf
-      simp only [hf] at hc
-      by_cases hni : secNameIn dsecs o.name = true
-      · simp [hni]
-      · have hni' : secNameIn dsecs o.name = false := by simpa using hni
-        rw [hni', Bool.false_or] at hc
-        simp only [hni']
-        apply mergeSecs_clash_keyError cv k os r _ hwos
-        · intro o' ho' mine' hf'
-          rw [findSec_append_other _ _ _ _ (by simpa using hne o' ho')] at hf'
-          exact hm o' (List.mem_cons_of_mem _ ho') mine' hf'
-        · rw [typeClashSecs_congr dsecs _ os
-            (fun o' ho' => ⟨findSec_append_other _ _ _ _ (by simpa using hne o' ho'), by
-              rw [secNameIn_append]; simp; intro h1; exact absurd h1 (hne o' ho')⟩)]
-          exact hc
-end
+/-- no source sub-Section name is used in the destination: nothing can clash -/
+theorem typeClashSecs_disjoint (dsecs os : List (Sec V))
+    (h : ∀ o ∈ os, secNameIn dsecs o.name = false) : typeClashSecs dsecs os = false := by
+  rw [typeClashSecs_false_iff]
+  intro o ho
+  refine ⟨?_, fun _ => h o ho⟩
+  intro mine hf
+  have hm := findSec_some hf
+  have := (secNameIn_false_iff _ _).1 (h o ho) mine hm.1
+  exact absurd hm.2.1 this
+
+/-- a raising `merge` is one of the two up-front refusals -/
+theorem merge_of_check_raised (cv : Conv V) (k : Bool) (r : Ref) (d s : Sec V) (e : Exc)
+    (hck : mergeCheck cv k d s = .raised e) : merge cv k r d s = (d, .raised e) := by
+  cases s with
+  | mk sa sp ss => unfold merge; rw [hck]
+
+theorem merge_of_clash (cv : Conv V) (k : Bool) (r : Ref) (d s : Sec V)
+    (hck : mergeCheck cv k d s = .ok) (hcl : typeClash d s = true) :
+    merge cv k r d s = (d, .raised .valueError) := by
+  cases s with
+  | mk sa sp ss => unfold merge; rw [hck]; simp only [hcl, if_true]
 
 /-! ## One step of the loops -/
 
@@ -950,12 +893,26 @@ theorem merge_ok_shape (cv : Conv V) (k : Bool) (r : Ref) (d s : Sec V)
       simp only [hck]
       split at h
       · cases h
-      · rename_i secs' hs
+      · rename_i hcl
+        simp only [hcl, Bool.false_eq_true, if_false]
         split at h
         · cases h
-        · rename_i props' hp
-          simp only [hs, hp, Sec.secs_mk, Sec.props_mk, Sec.attrs_mk]
-          exact ⟨trivial, trivial, trivial, trivial⟩
+        · rename_i secs' hs
+          split at h
+          · cases h
+          · rename_i props' hp
+            simp only [hs, hp, Sec.secs_mk, Sec.props_mk, Sec.attrs_mk]
+            exact ⟨trivial, trivial, trivial, trivial⟩
+
+/-- a successful `merge` passed the name check -/
+theorem merge_ok_no_clash (cv : Conv V) (k : Bool) (r : Ref) (d s : Sec V)
+    (h : (merge cv k r d s).2 = .ok) : typeClash d s = false := by
+  cases hcl : typeClash d s with
+  | false => rfl
+  | true =>
+    cases hck : mergeCheck cv k d s with
+    | ok => rw [merge_of_clash cv k r d s hck hcl] at h; cases h
+    | raised e => rw [merge_of_check_raised cv k r d s e hck] at h; cases h
 
 /-! ## Children the source lacks stay where they are, whatever the outcome -/
 
@@ -1013,11 +970,13 @@ theorem merge_lists (cv : Conv V) (k : Bool) (r : Ref) (d s : Sec V) :
     split
     · exact ⟨Or.inl rfl, Or.inl rfl⟩
     · split
-      · rename_i hs; simp [hs]
-      · rename_i hs
-        split
-        · rename_i hp; simp [hs, hp]
-        · rename_i hp; simp [hs, hp]
+      · exact ⟨Or.inl rfl, Or.inl rfl⟩
+      · split
+        · rename_i hs; simp [hs]
+        · rename_i hs
+          split
+          · rename_i hp; simp [hs, hp]
+          · rename_i hp; simp [hs, hp]
 
 /-! ## Values and attributes of a merged Property -/
 
